@@ -549,10 +549,29 @@ class RealOracle:
         return space, x, cfg_of(space, x)
 
     def shrink_all(self, tasks):
-        """tasks: [(clause, cfg)] -> [(space, x, small cfg)]; the questions of all tasks are answered in batches"""
-        gens = [self._shrink(cfg) for _, cfg in tasks]
-        results, pending = {}, {}
-        for i, g in enumerate(gens):
+        """tasks: [(clause, cfg)] -> [(space, x, small cfg)]; the questions of all tasks are answered in batches.
+        Fast path: if a single byte of one of the values / subsections, stored alone, already fails the clause on the
+        real code, that one-byte case is the witness (smallest first); otherwise the configuration is shrunk step by step."""
+        def singles(cfg):
+            out = set()
+            for s in cfg:
+                out |= {("val", c) for _, v in s["items"] for c in v}
+                if s["hs"]:
+                    out |= {("sub", c) for c in s["sub"]}
+            return sorted(out)
+        for cl in CLAUSES:
+            cands = sorted({sc for c, cfg in tasks if c == cl for sc in singles(cfg)})
+            self.fails(cl, [cfg_of(sp, bytes([c])) for sp, c in cands])                            # fills the memo
+        results, pending, gens = {}, {}, {}
+        for i, (cl, cfg) in enumerate(tasks):
+            cands = singles(cfg)
+            for (sp, c), f in zip(cands, self.fails(cl, [cfg_of(sp, bytes([c])) for sp, c in cands])):
+                if f:
+                    results[i] = (sp, bytes([c]), cfg_of(sp, bytes([c])))
+                    break
+            else:
+                gens[i] = self._shrink(cfg)
+        for i, g in gens.items():
             try:
                 pending[i] = next(g)
             except StopIteration as e:
@@ -748,8 +767,12 @@ def ops_phase(ctx, book, fut, mi, variant, tid0):
     from dulwich.config import ConfigFile
     res, dot = fut.result()
     ctx.add_tlc(f"ConfigOps (MaxItems={mi}, 4 sections x 3 keys x 2 values; set/add/remove/rewrite)", res)
-    if res.coverage:
-        cov = {a: int(t) for a, _, t in re.findall(r"^<(\w+) line [^>]*>: (\d+):(\d+)", res.output, re.M)}
+    if not ctx.quick:
+        # vacuity: every action of the history model is taken (coverage run on the small bound; -coverage is slow)
+        d2 = ctx.tmpdir("opscov")
+        rc, _ = ops_tlc(d2, variant, 2, 4, coverage=True)
+        ctx.add_tlc("ConfigOps (MaxItems=2) with -coverage 1: every action taken", rc)
+        cov = {a: int(t) for a, _, t in re.findall(r"^<(\w+) line [^>]*>: (\d+):(\d+)", rc.output, re.M)}
         dead = [a for a in ("Set", "Add", "Remove", "Rewrite") if cov.get(a, 0) == 0]
         ctx.cov["ops_action_coverage"] = {a: cov.get(a, 0) for a in ("Set", "Add", "Remove", "Rewrite")}
         if dead:
@@ -922,7 +945,7 @@ def run(ctx):
     with cf.ThreadPoolExecutor(3) as pool, cf.ProcessPoolExecutor(4, mp_context=multiprocessing.get_context("spawn")) as procs:
         gens = {sp: pool.submit(tlc_cases, d, sp, ml, variant, ctx.pick(4, 6) if sp == "val" else ctx.pick(2, 1)) for sp, ml in plan}
         mi = ctx.pick(2, 3)
-        opsfut = pool.submit(ops_tlc, d, variant, mi, ctx.pick(2, 6), not ctx.quick)
+        opsfut = pool.submit(ops_tlc, d, variant, mi, ctx.pick(2, 6))
         mc = model_check(ctx, d, variant, pool)
         # 1. the git automaton first, on hand-written files (dulwich's writer is not involved)
         for sp, ml in plan:
